@@ -6,10 +6,13 @@ A measuring instrument for the checks — it decides nothing about go-slug."""
 import json, os, subprocess, shutil, sys, tempfile, threading, queue, time
 OUT='/tmp/mutsweep'; os.makedirs(OUT,exist_ok=True)
 env=dict(os.environ,GOFLAGS='-mod=mod',GOPROXY='off',GOSUMDB='off',GOTOOLCHAIN='local'); env.pop('GOWORK',None)
-muts=json.loads(subprocess.run(['/verif/bin/mutgen','/repo'],capture_output=True,text=True).stdout)
+if os.environ.get('MUT_FILE'):
+    muts=json.load(open(os.environ['MUT_FILE']))
+else:
+    muts=json.loads(subprocess.run(['/verif/bin/mutgen','/repo'],capture_output=True,text=True).stdout)
+OUT=os.environ.get('MUT_OUT',OUT); os.makedirs(OUT,exist_ok=True)
 if os.environ.get('MUT_IDS'):
     ids=set(int(x) for x in open(os.environ['MUT_IDS']).read().split()); muts=[m for m in muts if m['id'] in ids]
-    OUT=os.environ.get('MUT_OUT',OUT); os.makedirs(OUT,exist_ok=True)
 elif len(sys.argv)>1: muts=[m for m in muts if any(m['file'].startswith(a) for a in sys.argv[1:])]
 def allkeys(root):
     out=subprocess.run(['/verif/bin/slugcheck','-all','-root',root],capture_output=True,text=True,env=env).stdout
@@ -54,7 +57,7 @@ def worker(i):
                     print(done[0],'/',len(muts),time.strftime('%H:%M:%S'),flush=True)
                     json.dump(results,open(OUT+'/results.json','w'))
     finally: shutil.rmtree(wd,ignore_errors=True)
-ts=[threading.Thread(target=worker,args=(i,)) for i in range(14)]
+ts=[threading.Thread(target=worker,args=(i,)) for i in range(int(os.environ.get('MUT_WORKERS','14')))]
 [t.start() for t in ts]; [t.join() for t in ts]
 json.dump(sorted(results,key=lambda r:r['id']),open(OUT+'/results.json','w'),indent=0)
 import collections
